@@ -24,6 +24,9 @@ import OFV.Proofs.C08Fock
 import OFV.Proofs.C08Car
 import OFV.Proofs.C08Maj
 import OFV.Proofs.C08Comp
+import OFV.Proofs.C08ScatterC03
+import OFV.Proofs.C08Doci
+import OFV.Spec.Expr
 
 namespace OFV.C08
 open OFV OFV.Spec OFV.Spec.C08 OFV.Model.C08 OFV.C08P
@@ -273,5 +276,110 @@ example : ∀ f ∈ ([(1, 1), (0, 0)] : Model.Term), f.2 < 2 := by decide
 strictly increasing terms (which `MajoranaOperator.__init__` guarantees). -/
 theorem majorana_mul_hom (a b : Model.MOp) (ha : SortedM a) : evM (Model.mmul a b) = evM a * evM b :=
   evM_mmul a b ha
+
+/-! ### `get_interaction_operator` -/
+
+/-- **the scatter loop of `get_interaction_operator` is sound on normal-ordered input**: for a
+dictionary `no` with distinct terms, no negligible coefficient and mode indices `< n` (what
+`normal_ordered` returns), if the loop succeeds — i.e. every term has one of the shapes `()`,
+`p^ q`, `p^ q^ r s` — the InteractionOperator `(constant, one_body, two_body)` it fills by
+ASSIGNMENT denotes the same formal polynomial as `no` (for every weight on words; no entry is
+overwritten because the terms are distinct). -/
+theorem get_interaction_operator_scatter_sound (tol : Rat) (n : Nat) (no : Model.Op) (c : GQ)
+    (one two : Tensor) (h : scatterIO tol n no = .ok (c, one, two)) (hnd : (no.map Prod.fst).Nodup)
+    (hsm : ∀ e ∈ no, GQ.isSmall tol e.2 = false) (hn : ∀ e ∈ no, ∀ f ∈ e.1, f.1 < n)
+    (w : Model.Term → GQ) :
+    evalW w (denotePT (mkIO c one two).d) = evalW w no :=
+  scatterIO_denote tol n no c one two h hnd hsm hn w
+
+/-- **`get_interaction_operator_sound`**: whenever `get_interaction_operator(A, n_qubits)` succeeds,
+the InteractionOperator has the matrix elements of `A` — for every FermionOperator with actions 0 / 1
+in ANY spelling (non-normal-ordered terms, repeated indices, any `n_qubits ≥ count_qubits`), at the
+live tolerance on coefficients of a lattice `(1/D)·ℤ[i]` with `tol·D ≤ 1` (all dyadic inputs:
+`D = 2^26` for `1e-8`).  `normal_ordered` is the Model of C03 and its soundness / exact-regime
+theorems are used (`normalOrdered_sound_melF`, `normal_ordered_exact_regime_aux`). -/
+theorem get_interaction_operator_sound (D : Nat) (hD : 0 < D) (tol : Rat) (h0 : 0 ≤ tol) (h1 : tol * D ≤ 1)
+    (A : Model.Op) (n? : Option Nat) (P : PT) (hv : ∀ e ∈ A, ∀ f ∈ e.1, f.2 < 2)
+    (la : ∀ e ∈ A, Proofs.C03.Lat D e.2) (h : getInteractionOperator tol A n? = .ok P) (t s : Nat) :
+    melF (denotePT P.d) t s = melF A t s :=
+  getIO_sound D hD tol h0 h1 A n? P hv la h t s
+
+/-- non-vacuity: the live tolerance admits the dyadic lattice `2^-26`, and `a_0 a†_1 / 4` converts -/
+example : (0 : Rat) ≤ Generated.eqTolerance ∧ Generated.eqTolerance * ((2 ^ 26 : Nat) : Rat) ≤ 1 ∧
+    (match getInteractionOperator Generated.eqTolerance [([(0, 0), (1, 1)], ⟨1/4, 0⟩)] none with
+      | .ok P => P.n
+      | .error _ => 0) = 2 := by
+  refine ⟨by norm_num [Generated.eqTolerance], by norm_num [Generated.eqTolerance], by decide +kernel⟩
+
+/-! ### DOCIHamiltonian -/
+
+open OFV.Model.C08.Doci in
+/-- **`get_tensors_from_integrals`** (spin-orbital tensors from spatial integrals): entry `(i, j)` of the
+one-body tensor is the (truncated) integral `(i/2, j/2)` when the spins `i % 2`, `j % 2` agree and `0`
+otherwise; entry `(i, j, k, l)` of the two-body tensor is half the (truncated) integral when the spins
+of `i, l` and of `j, k` agree and `0` otherwise. -/
+theorem get_tensors_from_integrals_entries (tol : Rat) (n : Nat) (one two : Tensor) (i j k l : Nat)
+    (hi : i < 2 * n) (hj : j < 2 * n) (hk : k < 2 * n) (hl : l < 2 * n) :
+    at2 (tensorsFromIntegrals tol n one two).1 i j
+      = (if i % 2 = j % 2 then (if GQ.isSmall tol (at2 one (i / 2) (j / 2)) then 0 else at2 one (i / 2) (j / 2)) else 0) ∧
+    at4 (tensorsFromIntegrals tol n one two).2 i j k l
+      = (if i % 2 = l % 2 ∧ j % 2 = k % 2 then
+          (if GQ.isSmall tol (at4 two (i / 2) (j / 2) (k / 2) (l / 2) * Doci.half) then 0
+           else at4 two (i / 2) (j / 2) (k / 2) (l / 2) * Doci.half) else 0) := by
+  constructor
+  · simp only [at2, tensorsFromIntegrals]
+    rw [tget_tab (2 * n) 2 _ [i, j] rfl (by intro a ha; simp at ha; rcases ha with rfl | rfl <;> assumption)]
+    rfl
+  · simp only [at4, tensorsFromIntegrals]
+    rw [tget_tab (2 * n) 4 _ [i, j, k, l] rfl
+      (by intro a ha; simp at ha; rcases ha with rfl | rfl | rfl | rfl <;> assumption)]
+    rfl
+
+open OFV.Model.C08.Doci in
+/-- **the two-body tensor of a DOCIHamiltonian is antisymmetrised without the factor 1/2**:
+`T[i, j, k, l] = t[i, j, k, l] - t[i, j, l, k]` where `t` is the tensor of the parent Hamiltonian
+(`get_tensors_from_integrals`); in particular it is antisymmetric in the annihilation indices.  Since
+`a_k a_l = -a_l a_k`, `Σ T[ijkl] a†_i a†_j a_k a_l = 2 Σ t[ijkl] a†_i a†_j a_k a_l`: finding F08c. -/
+theorem doci_two_body_tensor (tol : Rat) (n : Nat) (hc hr1 hr2 : Tensor) (i j k l : Nat)
+    (hi : i < 2 * n) (hj : j < 2 * n) (hk : k < 2 * n) (hl : l < 2 * n) :
+    let pi := projectedIntegrals n hc hr1 hr2
+    let t := (tensorsFromIntegrals tol n pi.1 pi.2).2
+    let T := (tensorsFromDoci tol n hc hr1 hr2).2
+    at4 T i j k l = at4 t i j k l - at4 t i j l k ∧ at4 T i j k l = -(at4 T i j l k) := by
+  have h1 : at4 (tensorsFromDoci tol n hc hr1 hr2).2 i j k l
+      = at4 (tensorsFromIntegrals tol n (projectedIntegrals n hc hr1 hr2).1 (projectedIntegrals n hc hr1 hr2).2).2 i j k l
+        - at4 (tensorsFromIntegrals tol n (projectedIntegrals n hc hr1 hr2).1 (projectedIntegrals n hc hr1 hr2).2).2 i j l k := by
+    simp only [at4, tensorsFromDoci]
+    rw [tget_tab (2 * n) 4 _ [i, j, k, l] rfl
+      (by intro a ha; simp at ha; rcases ha with rfl | rfl | rfl | rfl <;> assumption)]
+    rfl
+  have h2 : at4 (tensorsFromDoci tol n hc hr1 hr2).2 i j l k
+      = at4 (tensorsFromIntegrals tol n (projectedIntegrals n hc hr1 hr2).1 (projectedIntegrals n hc hr1 hr2).2).2 i j l k
+        - at4 (tensorsFromIntegrals tol n (projectedIntegrals n hc hr1 hr2).1 (projectedIntegrals n hc hr1 hr2).2).2 i j k l := by
+    simp only [at4, tensorsFromDoci]
+    rw [tget_tab (2 * n) 4 _ [i, j, l, k] rfl
+      (by intro a ha; simp at ha; rcases ha with rfl | rfl | rfl | rfl <;> assumption)]
+    rfl
+  refine ⟨h1, ?_⟩
+  rw [h1, h2]; ring
+
+/-- the witness DOCIHamiltonian of findings F08c / F08d: `hc = 0`, `hr1 = [[0, 1], [1, 0]]`, `hr2 = 0` -/
+def exDoci : Doci.DOCI :=
+  ⟨2, 0, .v [.s 0, .s 0], .v [.v [.s 0, .s 1], .v [.s 1, .s 0]], .v [.v [.s 0, .s 0], .v [.s 0, .s 0]]⟩
+
+/-- **finding F08c on the Model**: `qubit_operator = (X0 X1 + Y0 Y1)/2` moves the pair from orbital 0
+to orbital 1 with amplitude 1, the fermion operator denoted by `n_body_tensors` moves the doubly
+occupied orbital (`|0011⟩ → |1100⟩`) with amplitude 2. -/
+theorem doci_tensors_counterexample :
+    GV.coeff (applyOp .qubit (Doci.qubitOperator Generated.eqTolerance exDoci) [1]) [2] = 1 ∧
+    melF (denotePT (Doci.nBodyTensors Generated.eqTolerance exDoci)) 12 3 = 2 := by
+  decide +kernel
+
+/-- **finding F08d on the Model**: `__getitem__` returns `hr1[0,1]/2 = 1/2` for the term
+`0^ 1^ 2 3` while the stored tensor entry is `-1/2`. -/
+theorem doci_getitem_counterexample :
+    Doci.getitem exDoci [(0, 1), (1, 1), (2, 0), (3, 0)] = .ok ⟨1/2, 0⟩ ∧
+    Doci.at4 (Doci.tensorsFromDoci Generated.eqTolerance 2 exDoci.hc exDoci.hr1 exDoci.hr2).2 0 1 2 3 = ⟨-1/2, 0⟩ := by
+  decide +kernel
 
 end OFV.C08
